@@ -28,6 +28,11 @@ class Adapter(object):
     def value(self, real, code):
         k = self.all_names().index(real)
         base = self.base_values()[k]
+        # the value code "y" is ZERO (a value like any other, but falsy) for parameters whose domain contains it: locations,
+        # covariate effects, mechanistic parameters; scales get 1.3 x their base value
+        if code == 'y' and getattr(self, 'allow_zero', True) and (real.startswith(('Mean', 'Log mean')) or 'Cov.' in real or
+                            (len(real) == 2 and real[0] == 'P' and real[1].isdigit())):
+            return 0.0
         return round(base * {'x': 0.8, 'y': 1.3}[code], 4)
 
     def fix(self, obj, d):
@@ -174,14 +179,17 @@ class PopAdapter(Adapter):
         self._names = self._plain().get_parameter_names()
         pick = {'gauss2': ['Mean Dim. 2', 'Std. Dim. 1', 'Std. Dim. 2'],
                 'composed': ['Log std. Dim. 1', 'Pooled Dim. 1', 'Mean Dim. 1'],
-                'covariate': ['Std. Dim. 1', 'Mean Dim. 1 Cov. 1', 'Pooled Dim. 1']}[which]
+                'covariate': ['Std. Dim. 1', 'Mean Dim. 1 Cov. 1', 'Pooled Dim. 1'],
+                'pooled': ['Pooled Dim. 1', 'Pooled Dim. 3', 'Pooled Dim. 4']}[which]
         self.own = dict(zip('abc', pick))
         rng = np.random.default_rng(11)
         self.covs = np.array([[0.2], [0.7], [0.4]])
         self.w = np.round(rng.uniform(-1, 1, size=(3, self._plain().n_dim())), 3)
 
     def _plain(self):
-        if self.which == 'gauss2':
+        if self.which == 'pooled':
+            m = chi.PooledModel(n_dim=4)
+        elif self.which == 'gauss2':
             m = chi.GaussianModel(n_dim=2)
         elif self.which == 'composed':
             m = chi.ComposedPopulationModel([chi.LogNormalModel(centered=False), chi.PooledModel(), chi.GaussianModel()])
@@ -216,6 +224,8 @@ class PopAdapter(Adapter):
     def _obs(self, full):
         """individual parameters consistent with pooled dimensions at the given FULL vector"""
         names = self._names
+        if self.which == 'pooled':
+            return np.array([np.asarray(full, dtype=float)] * 3)
         if self.which == 'gauss2':
             return np.array([[0.8, 1.3], [1.1, 0.9], [1.4, 1.0]])
         pooled = full[names.index('Pooled Dim. 1')] if 'Pooled Dim. 1' in names else full[names.index('Pooled Dim. 2')]
@@ -399,6 +409,7 @@ class PMAdapter(LLAdapter):
 class PPMAdapter(Adapter):
     """chi.PopulationPredictiveModel: population parameters are fixed, samples are compared under the same seed"""
     name = 'PopulationPredictiveModel'
+    allow_zero = False          # (its Gaussian dimension is the mean of a noise scale)
 
     def __init__(self):
         self._names = self._plain().get_parameter_names()
@@ -472,7 +483,7 @@ class LLUserReducedAdapter(PMUserReducedAdapter):
 
 def adapters():
     return [ErrAdapter('G'), ErrAdapter('M'), ErrAdapter('C'), ErrAdapter('L'), MechAdapter(False), MechAdapter(True),
-            PopAdapter('gauss2'), PopAdapter('composed'), PopAdapter('covariate'), LLAdapter(), PMAdapter(),
+            PopAdapter('gauss2'), PopAdapter('composed'), PopAdapter('covariate'), PopAdapter('pooled'), LLAdapter(), PMAdapter(),
             LLAdapter({'a': 'P1', 'b': 'P2', 'c': 'Y2 Sigma base'}), PMAdapter({'a': 'P1', 'b': 'P2', 'c': 'Y1 Sigma'}),
             CtrlAdapter('indiv'), CtrlAdapter('pop'), PPMAdapter(), PMUserReducedAdapter(), LLUserReducedAdapter()]
 
@@ -558,6 +569,20 @@ def replay_case(arg):
             got = ad.evaluate(obj, v.copy(), **extra)
             exp = ad.evaluate(ad.plain(), full.copy(), full_mask=mask, **extra)
             cnt['evaluations'] = len(got)
+            # results are VALUES: what an evaluation returned does not change when the object is evaluated again at another
+            # point (a result that is a view of the wrapper's value buffer, or of the caller's vector, would)
+            if not getattr(ad, 'slow', False):
+                kept = {k: (got[k], np.array(got[k], dtype=float, copy=True)) for k in got if isinstance(got[k], np.ndarray)}
+                v_other = np.array(v, dtype=float) * 1.25 + 0.01
+                try:
+                    ad.evaluate(obj, v_other, **({'full': np.where(mask, full, full * 1.25 + 0.01)} if isinstance(ad, PopAdapter)
+                                                 else ({'primed': True} if primed else {})))
+                except Exception:
+                    pass                      # (the second point may be outside the support: only the retained results matter)
+                changed = [k for k, (ref_, cp_) in kept.items()
+                           if not np.array_equal(np.asarray(ref_, dtype=float), cp_, equal_nan=True)]
+                if changed:
+                    fail('ResultsAreValues', '+'.join(changed), dict(note='an earlier result changed after a later evaluation'))
             bad = [k for k in exp if k in got and not _cmp(got[k], exp[k])]
             missing = [k for k in exp if k not in got]
             if sib is not None:
